@@ -46,7 +46,8 @@ def commutes (j : Json) : Except String Json := do
   let b := toM (← J.op (← J.field j "b"))
   let atol ← J.rat (← J.field j "atol")
   let rtol ← J.rat (← J.field j "rtol")
-  .ok (J.obj [("model", Json.bool (Model.C02.commutesWith atol rtol a b))])
+  .ok (J.obj [("model", Json.bool (Model.C02.commutesWith atol rtol a b)),
+              ("exact_regime", Json.bool (Model.C02.majExactB atol rtol (mmul a b) (mmul b a)))])
 
 def pred (j : Json) : Except String Json := do
   let a ← J.op (← J.field j "a")
@@ -109,6 +110,7 @@ def hermitianIO (j : Json) : Except String Json := do
   let two ← J.listOf J.gq (← J.field j "two_body")
   let tol ← tolOf j "tol"
   .ok (J.obj [("model", Json.bool (Model.C02.isHermitianIO tol n c one two)),
+              ("exact_regime", Json.bool (Model.C02.ioExactB tol n c one two)),
               ("hc_one", J.ofList J.ofGQ (Model.C02.hcOneBody n one)),
               ("hc_two", J.ofList J.ofGQ (Model.C02.hcTwoBody n two))])
 
